@@ -1,5 +1,15 @@
 import FalconModel.WsUnbuf
+import FalconModel.WsMode
 open Wu
+/-! line protocol: `run <client event> … | <label> …`, optionally prefixed by `cfg <major.minor> <max_receive_queue> ` (a WebSocket
+    constructed with that announced spec version and queue setting: `Wm.wire` must yield the direct path, else the reply is
+    `buffered`; the reply then starts with `hdr=<supports_accept_headers>`). -/
+def parseVer (t : String) : Option Wm.Ver :=
+  match t.splitOn "." with
+  | [a, b] => match a.toNat?, b.toNat? with
+    | some a, some b => some ⟨a, b⟩
+    | _, _ => none
+  | _ => none
 def optNat (t : String) : Option Nat := if t == "-" then none else some t.toNat!
 def parseCEv (t : String) : Option CEv :=
   if t.startsWith "t" then some (.text (t.drop 1).toNat!)
@@ -51,8 +61,8 @@ def simulate : S → List Label → Nat → List String → (List String × S)
     match step s l with
     | none => ((s!"DISABLED@{i}" :: acc).reverse, s)
     | some s' => simulate s' ls (i + 1) ((showObs (s'.out.getLast?.getD .parked) ++ "/" ++ flags s') :: acc)
-def stepLine (line : String) : String :=
-  match line.trimAscii.toString.splitOn " | " with
+def stepRun (line : String) : String :=
+  match line.splitOn " | " with
   | [evs, labs] =>
     match evs.splitOn " " with
     | "run" :: etoks =>
@@ -63,6 +73,19 @@ def stepLine (line : String) : String :=
       | _, _ => "bad-op"
     | _ => "bad-op"
   | _ => "bad-op"
+def stepLine (line : String) : String :=
+  let line := line.trimAscii.toString
+  match line.splitOn " " with
+  | "cfg" :: ver :: mq :: rest =>
+    match parseVer ver, mq.toNat? with
+    | some v, some q =>
+      let w := Wm.wire v q
+      s!"hdr={if w.acceptHeaders then 1 else 0} " ++
+        (match w.path with
+         | .direct => stepRun (" ".intercalate rest)
+         | .buffered _ => "buffered")
+    | _, _ => "bad-op"
+  | _ => stepRun line
 partial def loop (h : IO.FS.Stream) : IO Unit := do
   let line ← h.getLine
   if line.isEmpty then return ()
